@@ -502,7 +502,7 @@ theorem noClass_requote {K : Char → Bool} (hK : EscapedClass K) (quoted : Bool
   · exact noClass_safelyUnquote U hK h
 
 /-- the same for a user name / password: `requoteNfkc` adds `%` and hex digits only
-(FX-C01-NFKCUSERINFO) -/
+(FX-C01-194b1c7) -/
 theorem noClass_requote_auth {K : Char → Bool} (hK : EscapedClass K) (quoted : Bool)
     {s : Str} (h : NoCtl s) : ∀ c ∈ requote quoted unquoteAuthItem s, K c = false := by
   unfold requote
